@@ -1,7 +1,32 @@
 import GoawkModel.Basic
-/-! Line-protocol handler for property C19: one request line (already split into words, without the leading `c19`) → one answer line. -/
+import GoawkModel.Drv.C16
+/-! Line-protocol handler for property C19. Same program syntax as C16 (see `GoawkModel.Drv.C16`):
+`parse <iter> <program>` runs `GoawkModel.C16.parse` — the resolver with the model of Go's `orderedFuncs` — where `<iter>` names
+the simulated map iteration order (`id`, `rev`, `rot`); the answer is the full result: type table with indexes, or the error with
+the place it was raised. `order <spec> <program>` answers the function walk order. -/
 namespace GoawkModel.Drv.C19
+open GoawkModel GoawkModel.C16 GoawkModel.Drv.C16
 
-def handle (_args : List String) : String := "unimplemented"
+def rot (l : List Name) : List Name :=
+  match l with
+  | [] => []
+  | x :: xs => xs ++ [x]
+
+def iterOf : String → Option (List Name → List Name)
+  | "id" => some id
+  | "rev" => some List.reverse
+  | "rot" => some rot
+  | _ => none
+
+def handle (args : List String) : String :=
+  match args with
+  | "parse" :: it :: rest =>
+    match iterOf it, parseProgram rest with
+    | some iter, some p =>
+      match parse iter p with
+      | .ok s => "ok " ++ showTable p s
+      | .error e => showErr e
+    | _, _ => "bad-request"
+  | _ => GoawkModel.Drv.C16.handle args
 
 end GoawkModel.Drv.C19
